@@ -129,7 +129,8 @@ class SignatureArguments(LoggerProperty):
             elif isinstance(default, Namespace):
                 defaults = default.as_dict()
             if defaults:
-                defaults = {prefix + k: v for k, v in defaults.items() if k not in skip}
+                dest_prefix = prefix.replace("-", "_")  # actions are found by dest, where "-" became "_"
+                defaults = {dest_prefix + k: v for k, v in defaults.items() if k not in skip}
                 self.set_defaults(**defaults)  # type: ignore[attr-defined]
 
         return added_args
